@@ -508,7 +508,8 @@ func TestC04(t *testing.T) {
 			case 1:
 				tx.Verdict = harness.Decision{Kind: "smtp", Code: 550 + k, Enh: [3]int{5, 6, k}, Msg: fmt.Sprintf("verdict-of-message-%d", k)}
 			case 2:
-				tx.Verdict = harness.Decision{Kind: "plain", Msg: fmt.Sprintf("plain-verdict-of-message-%d", k)}
+				// the text identifies the message: only flavours that keep it
+				tx.Verdict = harness.Decision{Kind: "plain", Msg: fmt.Sprintf("plain-verdict-of-message-%d", k), Flavour: rapid.SampledFrom([]string{"", "temp", "timeout", "wrapped"}).Draw(rt, "flavour")}
 			}
 			c.Txns = append(c.Txns, tx)
 		}
